@@ -127,4 +127,39 @@ theorem geom_solve1_degenerate (a b : Rat) (ha : geom_aeq0 a = true) : geom_solv
   simp only [hi1, ha, if_true]
   split <;> rfl
 
+/-! ### the vector helpers of the fitter -/
+
+theorem geom_sqdistp_dot (p q : GP) : geom_sqdistp p q = geom_dotp (geom_subp q p) (geom_subp q p) := rfl
+
+theorem geom_dotp_comm (p q : GP) : geom_dotp p q = geom_dotp q p := by
+  unfold geom_dotp; grind
+
+theorem geom_dotp_add (p q r : GP) : geom_dotp (geom_addp p q) r = geom_dotp p r + geom_dotp q r := by
+  unfold geom_dotp geom_addp; grind
+
+theorem geom_dotp_scale (p q : GP) (c : Rat) : geom_dotp (geom_scalep p c) q = c * geom_dotp p q := by
+  unfold geom_dotp geom_scalep; grind
+
+theorem rat_sq_nonneg (a : Rat) : 0 ≤ a * a := by
+  rcases Rat.le_total (a := 0) (b := a) with h | h
+  · exact Rat.mul_nonneg h h
+  · have h' : 0 ≤ -a := by grind
+    have := Rat.mul_nonneg h' h'
+    grind
+
+/-- the squared distance is never negative -/
+theorem geom_sqdistp_nonneg (p q : GP) : 0 ≤ geom_sqdistp p q := by
+  unfold geom_sqdistp
+  have h1 := rat_sq_nonneg (q.X - p.X)
+  have h2 := rat_sq_nonneg (q.Y - p.Y)
+  grind
+
+theorem geom_sqdistp_self (p : GP) : geom_sqdistp p p = 0 := by
+  unfold geom_sqdistp; grind
+
+theorem geom_sign_values (x : Rat) : geom_sign x = 1 ∨ geom_sign x = -1 := by
+  unfold geom_sign; split
+  · right; rfl
+  · left; rfl
+
 end Autog.FactsCheck
